@@ -57,120 +57,258 @@ def feature_loop(ctx, f):
     ctx.require(False, "no loop over the lines parameter in %s" % f.qual)
 
 
-def r1(ctx, sch):
-    f = gff_populate(ctx)
-    loop, fv = feature_loop(ctx, f)
-    sites = [s for s in execute_sites(ctx, [f]) if s.stmts and any(st.verb == "INSERT" and st.table.lower() == "relations" for st in s.stmts)]
-    ctx.floor("R1", len(sites), 1, "relation INSERT sites in the GFF importer")
-    for s in sites:
-        st = s.stmts[0]
-        cols = insert_columns(st, sch)
-        ok = cols[:3] == ["parent", "child", "level"] and len(st.values) == 3
-        ctx.ob("R1", ok, "the relation row has the columns (parent, child, level)", node=s.call, func=f,
-               sig="relation insert columns %s" % ",".join(cols))
-        if not ok:
-            continue
-        ctx.ob("R1", st.or_clause == "ignore", "first-level relations are inserted OR IGNORE (repeated Parent values are harmless)",
-               node=s.call, func=f, sig="relation insert conflict clause: %s" % (st.or_clause or "none"))
-        lvl = st.values[2]
-        params = s.params
-        elts = list(params.elts) if isinstance(params, (ast.Tuple, ast.List)) else None
-        ctx.require(elts is not None, "relation insert arguments are not a tuple display (%s)" % norm(params) if params is not None else "no args")
-        level_ok = (lvl[0] == "num" and lvl[1] == 1)
-        if lvl[0] == "param":
-            idx = [v for v in st.values if v[0] == "param"].index(lvl)
-            level_ok = idx < len(elts) and isinstance(elts[idx], ast.Constant) and elts[idx].value == 1
-        ctx.ob("R1", level_ok, "a Parent attribute creates a level-1 relation", node=s.call, func=f,
-               sig="Parent relation level: %s" % (S.show(lvl) if lvl[0] != "param" else norm(elts[idx]) if idx < len(elts) else "?"))
-        pvals = [v for v in st.values[:2]]
-        if any(v[0] != "param" for v in pvals) or len(elts) < 2:
-            ctx.ob("R1", False, "parent and child are bound from the feature", node=s.call, func=f,
-                   sig="relation insert binds %s" % norm(params))
-            continue
-        parent_e, child_e = elts[0], elts[1]
-        # enclosing loop over the Parent values
-        ploop = enclosing(s.call, ast.For)
-        whole = None
-        if ploop is not None and ploop is not loop:
-            whole = ploop.iter
-        is_parent_attr = whole is not None and _is_attr_lookup(whole, fv, "Parent")
-        ctx.ob("R1", is_parent_attr, "the relation insert runs for every value of the feature's Parent attribute "
-               "(a loop over the whole attribute value)", node=s.call, func=f,
-               sig="Parent loop iterates %s" % (norm(whole) if whole is not None else "nothing (no loop)"))
-        lv = ploop.target.id if ploop is not None and isinstance(ploop.target, ast.Name) else None
-        if ploop is not None and lv:
-            for n in ast.walk(ploop):
-                if isinstance(n, ast.Assign) and isinstance(n.targets[0], ast.Subscript):
-                    key_names = {x.id for x in ast.walk(n.targets[0].slice) if isinstance(x, ast.Name)}
-                    val_names = {x.id for x in ast.walk(n.value) if isinstance(x, ast.Name)}
-                    if lv not in key_names and lv in val_names:
-                        ctx.ob("R1", False, "every Parent value of a feature survives: inside the loop over the Parent values nothing is stored under a key "
-                               "that does not depend on the value (each pass would overwrite the previous parent)", node=n, func=f,
-                               sig="Parent loop overwrites %s with each parent" % norm(n.targets[0]))
-        ok_p = isinstance(parent_e, ast.Name) and parent_e.id == lv
-        ok_c = norm(child_e) == "%s.id" % fv
-        ctx.ob("R1", ok_p and ok_c, "the row is (Parent value, this feature's id)", node=s.call, func=f,
-               sig="relation row (%s, %s)" % (norm(parent_e), norm(child_e)))
-        # id assigned and merge handling done before the relation is written
-        cfg = cfg_of(f)
-        idasg = [n for n in ast.walk(loop) if isinstance(n, ast.Assign) and any(norm(t) == "%s.id" % fv for t in n.targets)]
-        ctx.floor("R1", len(idasg), 1, "assignments of the feature id in the GFF importer loop")
-        site_node = cfg.node_for(s.call)
-        dom = all(cfg.dominates(cfg.node_for(a).id, site_node.id) for a in idasg[:1])
-        ctx.ob("R1", dom, "the id is assigned before the relation row is written", node=s.call, func=f,
-               sig="id assignment dominates relation insert" if dom else "relation insert not dominated by the id assignment")
-        tries = [n for n in loop.body if isinstance(n, ast.Try)]
-        top = _top_stmt_in(loop.body, s.call)
-        after = bool(tries) and top is not None and all(loop.body.index(top) > loop.body.index(t) for t in tries)
-        ctx.ob("R1", after, "the relation row is written after collision handling (which may rename the feature)",
-               node=s.call, func=f, sig="relation insert after the try/except of the feature insert" if after else
-               "relation insert not placed after collision handling")
-        # guard: only the presence test of the Parent attribute
-        guards = []
-        child = ploop if ploop is not None else stmt_of(s.call)
-        for p in parents(child):
-            if p is loop:
-                break
-            if isinstance(p, ast.If):
-                guards.append(p.test)
-            elif isinstance(p, ast.Try):
-                pass
-        okg = all(_is_presence_test(g, fv, "Parent") for g in guards)
-        ctx.ob("R1", okg, "the Parent loop is guarded by nothing but the presence of the attribute", node=s.call, func=f,
-               sig="Parent loop guards: %s" % ("; ".join(norm(g) for g in guards) or "none"))
-
-
-def _top_stmt_in(body, node):
-    for p in [node] + list(parents(node)):
-        if any(p is b for b in body):
-            return p
+def _presence(test, is_attrs):
+    """True: the test holds when the Parent attribute is present; False: when it is absent; None: unrelated.
+    is_attrs(expr) says whether expr denotes the feature or its attribute mapping."""
+    if isinstance(test, ast.UnaryOp) and isinstance(test.op, ast.Not):
+        p = _presence(test.operand, is_attrs)
+        return None if p is None else not p
+    if isinstance(test, ast.Compare) and len(test.ops) == 1 and isinstance(test.ops[0], (ast.In, ast.NotIn)) and const_str(test.left) == "Parent":
+        c = test.comparators[0]
+        if isinstance(c, ast.Call) and call_attr(c) == "keys":
+            c = c.func.value
+        if is_attrs(c):
+            return isinstance(test.ops[0], ast.In)
+    if isinstance(test, ast.Call) and call_attr(test) == "get" and test.args and const_str(test.args[0]) == "Parent" and is_attrs(test.func.value):
+        return True
     return None
 
 
-def _is_attr_lookup(node, fv, key):
-    """f.attributes["Parent"] or f["Parent"] (whole value)."""
-    if isinstance(node, ast.Subscript) and const_str(node.slice) == key:
-        b = node.value
-        if is_name(b, fv):
-            return True
-        if isinstance(b, ast.Attribute) and b.attr == "attributes" and is_name(b.value, fv):
-            return True
-    if isinstance(node, ast.Call) and call_attr(node) == "get" and node.args and const_str(node.args[0]) == key:
-        b = node.func.value
-        if isinstance(b, ast.Attribute) and b.attr == "attributes" and is_name(b.value, fv):
-            return True
-    return False
+def r1(ctx, sch):
+    """Level-1 relations = {(p, f.id, 1) | f a stored feature, p a value of f's Parent attribute}: decided on value
+    provenance (which values reach the bound columns, through helpers and temporaries) and on the loop body's CFG
+    (every path on which the feature row was written passes the relation writer or a Parent-absence edge; the id
+    is final before the writer)."""
+    from ..flow import Flow, show
+    from ..util import closure
+    from .. import sqlbind
+    f = gff_populate(ctx)
+    loop, fv = feature_loop(ctx, f)
+    pool = closure(ctx, f)
+    fl = Flow(ctx, pool)
+    lines = [p for p in f.params if p != "self"][0]
+    FEATURE = ("elem", ("param", f.qual, lines))
+    ATTRS = {("attr", FEATURE, "attributes"), FEATURE}
+    PVALUE = {("item", a, "Parent") for a in ATTRS}
+
+    def is_attrs_in(func):
+        return lambda e: fl.terms(e, func) <= ATTRS
+    sites = [s for s in execute_sites(ctx, pool) if s.stmts and any(st.verb == "INSERT" and st.table.lower() == "relations" for st in s.stmts)]
+    ctx.floor("R1", len(sites), 1, "relation INSERT sites reachable from the GFF importer")
+    cores = {}   # func qual -> set of CFG node ids through which Parent relations are written
+    for s in sites:
+        st = s.stmts[0]
+        g = s.func
+        try:
+            rows = sqlbind.bound_rows(s, sch, g)
+        except sqlbind.Unbound as e:
+            ctx.ob("R1", False, "the relation row's columns are bound to determinable values", node=s.call, func=g, sig="relation insert arguments not determinable: %s" % e)
+            continue
+        ctx.ob("R1", st.or_clause == "ignore", "first-level relations are inserted OR IGNORE (repeated Parent values are harmless)",
+               node=s.call, func=g, sig="relation insert conflict clause: %s" % (st.or_clause or "none"))
+        cond = getattr(st, "select", None) is not None and (st.select.where is not None or st.select.source is not None)
+        ctx.ob("R1", not cond, "the relation row is written unconditionally (a dangling Parent still creates its relation row)", node=s.call, func=g,
+               sig="relation insert is unconditional" if not cond else "relation insert is an INSERT ... SELECT with a condition", nontrivial=False)
+        for bind, _loops in rows:
+            have = {k for k in bind if isinstance(k, str)}
+            ctx.ob("R1", {"parent", "child", "level"} <= have, "the relation row binds (parent, child, level)", node=s.call, func=g,
+                   sig="relation insert binds %s" % ",".join(sorted(have)))
+            if not {"parent", "child", "level"} <= have:
+                continue
+
+            def terms_of(v):
+                if isinstance(v, tuple) and v and v[0] == "sql":
+                    return {("const", v[1][1])} if v[1][0] in ("num", "str") else {("unknown", S.show(v[1]))}
+                return fl.terms(v, g)
+            lv, pt, ct = terms_of(bind["level"]), terms_of(bind["parent"]), terms_of(bind["child"])
+            ctx.ob("R1", lv == {("const", 1)}, "a Parent attribute creates a level-1 relation", node=s.call, func=g,
+                   sig="Parent relation level: %s" % ", ".join(sorted(show(t) for t in lv)))
+            okp = bool(pt) and all(t[0] == "elem" and t[1] in PVALUE for t in pt)
+            ctx.ob("R1", okp, "the parent column is bound to each value of the feature's whole Parent attribute", node=s.call, func=g,
+                   sig="relation parent <- %s" % ", ".join(sorted(show(t) for t in pt)))
+            okc = ct == {("attr", FEATURE, "id")}
+            ctx.ob("R1", okc, "the child column is bound to this feature's id", node=s.call, func=g,
+                   sig="relation child <- %s" % ", ".join(sorted(show(t) for t in ct)))
+        # the construct through which the writer is passed: the outermost loop over the Parent values, else the statement
+        cfg = cfg_of(g)
+        core = stmt_of(s.call)
+        for p in parents(s.call):
+            if p is g.node:
+                break
+            if isinstance(p, ast.For) and fl.terms(p.iter, g) <= PVALUE:
+                core = p
+        cn = cfg.node_for(core) if not isinstance(core, ast.For) else cfg.by_stmt.get(id(core))
+        ctx.require(cn is not None, "relation insert has no CFG node")
+        if isinstance(core, ast.For):
+            # inside the loop over the Parent values every pass reaches the insert
+            sn = cfg.node_for(s.call)
+            latch = [n.id for n in cfg.nodes if n.kind == "latch" and any(m == cn.id for m, _l in cfg.succ[n.id])]
+            seen_, stack_ = set(), [m for m, lab in cfg.succ[cn.id] if lab == "true"]
+            skip = False
+            while stack_:
+                n_ = stack_.pop()
+                if n_ in seen_ or n_ == sn.id:
+                    continue
+                seen_.add(n_)
+                if n_ in latch or n_ == cn.id:
+                    skip = True
+                    break
+                for m, lab in cfg.succ[n_]:
+                    if lab not in ("exc", "raise"):
+                        stack_.append(m)
+            ctx.ob("R1", not skip, "every value of the Parent attribute gets its relation row (no pass of the value loop skips the insert)", node=s.call, func=g,
+                   sig="every Parent value reaches the insert" if not skip else "a pass of the Parent value loop skips the relation insert")
+        cores.setdefault(g.qual, set()).add(cn.id)
+    # lift through helpers: a call statement of a function with cores is a core of its caller
+    changed = True
+    rounds = 0
+    while changed and rounds < 6:
+        changed = False
+        rounds += 1
+        for g in pool:
+            for c in calls_in(g.node, own=True):
+                fs, _d = ctx.proj.resolve_call(c, g)
+                if any(h.qual in cores and h.qual != g.qual for h in fs):
+                    n_ = cfg_of(g).node_for(c)
+                    if n_ is not None and n_.id not in cores.setdefault(g.qual, set()):
+                        cores[g.qual].add(n_.id)
+                        changed = True
+    ctx.ob("R1", f.qual in cores, "the GFF importer's line loop reaches the relation writer", func=f,
+           sig="relation writer reachable from the line loop" if f.qual in cores else "line loop never reaches a relation insert")
+    if f.qual not in cores:
+        return
+    by_qual = {g.qual: g for g in pool}
+
+    def bypass_edges(g):
+        """(node id, label) of test edges asserting that the feature has no Parent attribute."""
+        cfg = cfg_of(g)
+        out = set()
+        for n in cfg.nodes:
+            if n.kind == "test":
+                pol = _presence(n.stmt.test, is_attrs_in(g))
+                if pol is not None:
+                    out.add((n.id, "false" if pol else "true"))
+        return out
+    # helpers: from entry to exit every path passes the writer or a Parent-absence edge
+    for q, ids in cores.items():
+        g = by_qual[q]
+        if g is f:
+            continue
+        cfg = cfg_of(g)
+        byp = bypass_edges(g)
+        seen, stack = set(), [cfg.entry.id]
+        leak = False
+        while stack:
+            n = stack.pop()
+            if n in seen or n in ids:
+                continue
+            seen.add(n)
+            if n == cfg.exit.id:
+                leak = True
+                break
+            for m, lab in cfg.succ[n]:
+                if (n, lab) in byp or lab == "exc":
+                    continue
+                stack.append(m)
+        ctx.ob("R1", not leak, "in a helper that writes the Parent relations every normal path passes the writer unless the feature has no Parent attribute",
+               func=g, sig="%s: writer on every path" % g.name if not leak else "%s: a path returns without writing the relations" % g.name)
+    # root: inside the line loop
+    cfg = cfg_of(f)
+    ids = cores[f.qual]
+    ln = cfg.by_stmt.get(id(loop))
+    body = set()
+    for n in cfg.nodes:
+        if n.stmt is not None and n.id != ln.id and any(n.stmt is x for b in loop.body for x in ast.walk(b)):
+            body.add(n.id)
+    for n in cfg.nodes:
+        if n.kind == "latch" and any(m in body for m, _l in cfg.succ[n.id]):
+            body.add(n.id)
+    inside = [i for i in ids if i in body]
+    ctx.ob("R1", bool(inside), "the relation writer runs inside the loop over the lines", func=f,
+           sig="relation writer inside the line loop" if inside else "relation writer outside the line loop")
+    # statements that write the feature row: direct executes on `features` and calls whose closure contains one
+    writers = set()
+    feat_sites = [s for s in execute_sites(ctx, pool) if s.stmts and any(st.verb in ("INSERT", "UPDATE", "REPLACE") and st.table.lower() == "features" for st in s.stmts)]
+    wfuncs = {s.func.qual for s in feat_sites}
+    grow = True
+    while grow:
+        grow = False
+        for g in pool:
+            if g.qual in wfuncs:
+                continue
+            for c in calls_in(g.node, own=True):
+                fs, _d = ctx.proj.resolve_call(c, g)
+                if any(h.qual in wfuncs for h in fs) and g is not f:
+                    wfuncs.add(g.qual)
+                    grow = True
+                    break
+    for s in feat_sites:
+        if s.func is f:
+            n_ = cfg.node_for(s.call)
+            if n_ is not None:
+                writers.add(n_.id)
+    for c in calls_in(f.node, own=True):
+        fs, _d = ctx.proj.resolve_call(c, f)
+        if any(h.qual in wfuncs for h in fs):
+            n_ = cfg.node_for(c)
+            if n_ is not None:
+                writers.add(n_.id)
+    ctx.floor("R1", len([w for w in writers if w in body]), 1, "feature-row writes in the line loop")
+    byp = bypass_edges(f)
+    start = [(m, False) for m, lab in cfg.succ[ln.id] if lab == "true"]
+    seen, stack = set(), list(start)
+    leak = None
+    while stack:
+        n, written = stack.pop()
+        if (n, written) in seen or n in ids:
+            continue
+        seen.add((n, written))
+        if n not in body:
+            if written and n != cfg.raise_exit.id:
+                leak = n
+                break
+            continue
+        for m, lab in cfg.succ[n]:
+            if (n, lab) in byp:
+                continue
+            stack.append((m, written or (n in writers and lab != "exc")))
+    ctx.ob("R1", leak is None, "every pass of the line loop that stored the feature row passes the relation writer (or a Parent-absence edge) before the next line",
+           func=f, sig="stored features always reach the relation writer" if leak is None else
+           "a path stores the feature row and leaves the iteration without writing its Parent relations")
+    # the id is final: assigned before the writer, never changed after it within the iteration
+    idops = set()
+    idfuncs = set()
+    for g in pool:
+        if any(isinstance(n, (ast.Assign, ast.AugAssign)) and any(isinstance(t, ast.Attribute) and t.attr == "id" and not is_name(t.value, "self")
+                                                                for t in (n.targets if isinstance(n, ast.Assign) else [n.target])) for n in walk_own_(g)):
+            idfuncs.add(g.qual)
+    for n in cfg.nodes:
+        if n.id not in body or n.stmt is None or n.kind != "stmt":
+            continue
+        st = n.stmt
+        if isinstance(st, ast.Assign) and any(isinstance(t, ast.Attribute) and t.attr == "id" and fl.terms(t.value, f) <= {FEATURE} for t in st.targets):
+            idops.add(n.id)
+            continue
+        for c in [x for x in ast.walk(st) if isinstance(x, ast.Call)]:
+            fs, _d = ctx.proj.resolve_call(c, f)
+            if any(h.qual in idfuncs for h in fs) and any(fl.terms(a, f) <= {FEATURE} for a in list(c.args) + [k.value for k in c.keywords]):
+                idops.add(n.id)
+    ctx.floor("R1", len(idops), 1, "operations in the line loop that may set the feature's id")
+    for core_id in inside:
+        dom = any(cfg.dominates(i, core_id) and i != core_id for i in idops)
+        ctx.ob("R1", dom, "the id is assigned before the relation row is written", func=f, node=cfg.nodes[core_id].stmt,
+               sig="id assignment dominates the relation writer" if dom else "relation writer not dominated by an id assignment")
+        after = cfg.reachable(core_id, avoid={ln.id}) & idops
+        after.discard(core_id)
+        ctx.ob("R1", not after, "the feature's id cannot change after its relation rows were written (collision handling, which may rename it, comes first)",
+               func=f, node=cfg.nodes[core_id].stmt,
+               sig="no id-affecting operation after the relation writer" if not after else
+               "id-affecting operation at line %s follows the relation writer" % min(cfg.nodes[i].lineno for i in after))
 
 
-def _is_presence_test(test, fv, key):
-    if isinstance(test, ast.Compare) and len(test.ops) == 1 and isinstance(test.ops[0], ast.In):
-        if const_str(test.left) == key:
-            c = test.comparators[0]
-            if isinstance(c, ast.Attribute) and c.attr == "attributes" and is_name(c.value, fv):
-                return True
-            if isinstance(c, ast.Call) and call_attr(c) == "keys":
-                return True
-    return False
+def walk_own_(g):
+    from ..model import walk_own
+    return walk_own(g.node)
 
 
 def r2(ctx, sch):
@@ -178,7 +316,8 @@ def r2(ctx, sch):
     f = ctx.proj.method(c, "_update_relations")
     ctx.require(f is not None and f.cls is c, "anchor vanished: _GFFDBCreator._update_relations")
     ctx.touch(f)
-    pool = [f] + [g for lst in f.nested.values() for g in lst]
+    from ..util import closure
+    pool = closure(ctx, f)
     sites = execute_sites(ctx, pool)
     sel = [s for s in sites if s.stmts and s.stmts[0].verb == "SELECT" and s.stmts[0].tables().count("relations") >= 1
            and "relations" in s.stmts[0].tables()]
@@ -203,83 +342,126 @@ def r2(ctx, sch):
                node=s.call, func=f, sig=sig,
                detail=None if ok else "composing rows of every level invents relations when level-2 rows already exist "
                                       "(FeatureDB.update on a database with a depth-3 chain)")
-        # $p is the id of each feature
-        p = s.params
-        src = None
-        if isinstance(p, ast.Call) and is_name(p.func, "tuple") and p.args and isinstance(p.args[0], ast.Name):
-            src = p.args[0].id
-        elif isinstance(p, ast.Tuple) and len(p.elts) == 1:
-            e = p.elts[0]
-            src = e.value.id if isinstance(e, ast.Subscript) and isinstance(e.value, ast.Name) else (e.id if isinstance(e, ast.Name) else None)
-        oloop = enclosing(s.call, ast.For)
-        ok_src = oloop is not None and isinstance(oloop.target, ast.Name) and oloop.target.id == src
-        idsel = [x for x in sites if x.stmts and x.stmts[0].verb == "SELECT" and x.stmts[0].tables() == ["features"]
-                 and len(x.stmts[0].cols) == 1 and x.stmts[0].cols[0][0][0] == "col" and x.stmts[0].cols[0][0][2].lower() == "id"
-                 and x.stmts[0].where is None]
-        ctx.ob("R2", ok_src and len(idsel) >= 1, "the closure is computed for every stored feature id", node=s.call, func=f,
-               sig="closure driven by SELECT id FROM features" if ok_src and idsel else "closure not driven by every feature id")
-    # the row written: (ancestor, grandchild, 2)
+    _r2_rowflow(ctx, f, pool, sites, sel, sch)
+
+
+def _find(term, pred):
+    """First sub-term satisfying pred (pre-order)."""
+    if pred(term):
+        return term
+    if isinstance(term, tuple):
+        for x in term[1:]:
+            if isinstance(x, tuple):
+                r = _find(x, pred)
+                if r is not None:
+                    return r
+    return None
+
+
+def _r2_rowflow(ctx, f, pool, sites, sel, sch):
+    """The pairs (feature id, grandchild id) computed by the level-2 SELECT reach the level-2 INSERT as
+    (parent, child, 2): decided on value provenance -- what the writer joins into a line, how the reader splits it,
+    and which columns the split fields are bound to -- whatever names, tuple unpackings or row containers are used."""
+    from ..flow import Flow, show
+    from .. import sqlbind
+    fl = Flow(ctx, pool)
     ins = [s for s in sites if s.stmts and s.stmts[0].verb == "INSERT" and s.stmts[0].table.lower() == "relations"]
     ctx.floor("R2", len(ins), 1, "level-2 INSERT sites")
+    # ---- the driver: $p of the level-2 SELECT is column 0 of each row of `SELECT id FROM features`
+    idsel = [x for x in sites if x.stmts and x.stmts[0].verb == "SELECT" and x.stmts[0].tables() == ["features"]
+             and len(x.stmts[0].cols) == 1 and x.stmts[0].cols[0][0][0] == "col" and x.stmts[0].cols[0][0][2].lower() == "id"
+             and x.stmts[0].where is None]
+    id_cursors = set()
+    for x in idsel:
+        id_cursors |= fl.terms(x.call.func.value, x.func)
+    l2_cursors = set()
+    for s in sel:
+        l2_cursors |= fl.terms(s.call.func.value, s.func)
+        pt = fl.terms(s.params, s.func) if s.params is not None else set()
+        # the whole row of the id cursor, or a 1-tuple of its first column
+        ok = bool(pt) and all(
+            (t[0] == "elem" and t[1] in id_cursors) or
+            (t[0] == "op" and t[1] in ("tuple", "list") and len(t) == 3 and t[2][0] == "pos" and t[2][2] == 0 and t[2][1][0] == "elem" and t[2][1][1] in id_cursors)
+            for t in pt)
+        ctx.ob("R2", ok and len(idsel) >= 1, "the closure is computed for every stored feature id", node=s.call, func=s.func,
+               sig="closure driven by SELECT id FROM features" if ok and idsel else "closure not driven by every feature id (bound to %s)" % ", ".join(sorted(show(t) for t in pt)))
+    ID0 = {("pos", ("elem", c_), 0) for c_ in id_cursors}
+    GC0 = {("pos", ("elem", c_), 0) for c_ in l2_cursors}
+    # ---- the writer: one line per pair, <feature id> SEP <grandchild id>
+    writes = [(g, c) for g in pool for c in calls_in(g.node) if call_attr(c) == "write" and c.args]
+    ctx.floor("R2", len(writes), 1, "writes of closure pairs")
+    seps = set()
+    handles = set()
+    for g, w in writes:
+        ts = fl.terms(w.args[0], g)
+        joins = [_find(t, lambda x: isinstance(x, tuple) and x[0] == "call" and x[1] == "join" and x[2] is not None and x[2][0] == "const") for t in ts]
+        ok = bool(joins) and all(j is not None and len(j[3]) == 1 and j[3][0][0] == "op" and j[3][0][1] in ("tuple", "list") and len(j[3][0]) == 4 and
+                                 j[3][0][2] in ID0 and j[3][0][3] in GC0 for j in joins)
+        ctx.ob("R2", ok, "each closure line is (feature id, grandchild id)", node=w, func=g,
+               sig="closure line fields (feature id, grandchild id)" if ok else "closure line is %s" % ", ".join(sorted(show(t) for t in ts)))
+        for j in joins:
+            if j is not None:
+                seps.add(j[2][1])
+        handles |= fl.terms(w.func.value, g)
+    # ---- the reader and the insert
     for s in ins:
         st = s.stmts[0]
-        cols = insert_columns(st, sch)
-        names = [(v[2] if v[0] == "param" else None) for v in st.values]
-        ok = cols[:3] == ["parent", "child", "level"] and names == ["parent", "child", "level"] or \
-            (cols[:3] == ["parent", "child", "level"] and all(n == "?" for n in names))
-        ctx.ob("R2", ok and st.or_clause == "ignore", "level-2 rows are inserted OR IGNORE with named values in column order",
-               node=s.call, func=f, sig="level-2 insert %s -> %s (%s)" % (names, cols, st.or_clause))
-    _r2_rowflow(ctx, f)
+        ctx.ob("R2", st.or_clause == "ignore", "level-2 rows are inserted OR IGNORE", node=s.call, func=s.func, sig="level-2 insert conflict clause: %s" % (st.or_clause or "none"))
+        try:
+            rows = sqlbind.bound_rows(s, sch, s.func)
+        except sqlbind.Unbound as e:
+            ctx.ob("R2", False, "the level-2 row's columns are bound to determinable values", node=s.call, func=s.func, sig="level-2 insert arguments not determinable: %s" % e)
+            continue
+        for bind, loops in rows:
+            g = s.func
+            for kind, who in loops:
+                if kind == "gen":
+                    g = who
+                    ctx.touch(g)
+            have = {k for k in bind if isinstance(k, str)}
+            if not {"parent", "child", "level"} <= have:
+                ctx.ob("R2", False, "the level-2 row binds (parent, child, level)", node=s.call, func=g, sig="level-2 insert binds %s" % ",".join(sorted(have)))
+                continue
 
+            def terms_of(v):
+                if isinstance(v, tuple) and v and v[0] == "sql":
+                    return {("const", v[1][1])} if v[1][0] in ("num", "str") else {("unknown", S.show(v[1]))}
+                return fl.terms(v, g)
+            pt, ct, lt = terms_of(bind["parent"]), terms_of(bind["child"]), terms_of(bind["level"])
+            okl = lt == {("const", 2)}
+            ctx.ob("R2", okl, "composed rows are stored at level 2", node=s.call, func=g, sig="closure reader level=%s" % ", ".join(sorted(show(t) for t in lt)))
 
-def _r2_rowflow(ctx, f):
-    """writer/reader agreement of the temp file that carries (ancestor,
-    grandchild) pairs into the level-2 insert."""
-    writes = [c for c in calls_in(f.node) if call_attr(c) == "write"]
-    ctx.floor("R2", len(writes), 1, "writes of closure pairs")
-    w = writes[0]
-    loops = []
-    for p in parents(w):
-        if isinstance(p, ast.For):
-            loops.append(p)
-    ctx.require(len(loops) >= 2, "closure write is not inside the two cursor loops")
-    inner, outer = loops[0], loops[1]
-    tup = None
-    for n in ast.walk(w):
-        if isinstance(n, ast.Call) and call_attr(n) == "join" and n.args and isinstance(n.args[0], (ast.Tuple, ast.List)):
-            tup = n.args[0]
-    ctx.require(tup is not None and len(tup.elts) == 2, "closure write is not a 2-field join")
-
-    def base(e):
-        return e.value.id if isinstance(e, ast.Subscript) and isinstance(e.value, ast.Name) and \
-            isinstance(e.slice, ast.Constant) and e.slice.value == 0 else None
-    ok = base(tup.elts[0]) == getattr(outer.target, "id", None) and base(tup.elts[1]) == getattr(inner.target, "id", None)
-    ctx.ob("R2", ok, "each closure line is (feature id, grandchild id)", node=w, func=f,
-           sig="closure line fields (%s, %s)" % (norm(tup.elts[0]), norm(tup.elts[1])))
-    gens = [g for lst in f.nested.values() for g in lst]
-    ctx.floor("R2", len(gens), 1, "closure row generators")
-    g = gens[0]
-    ctx.touch(g)
-    unpack = [n for n in ast.walk(g.node) if isinstance(n, ast.Assign) and isinstance(n.targets[0], ast.Tuple)
-              and any(isinstance(x, ast.Call) and call_attr(x) == "split" for x in ast.walk(n.value))]
-    ctx.require(unpack, "closure reader does not unpack split fields")
-    names = [getattr(e, "id", None) for e in unpack[0].targets[0].elts]
-    rows = [n for n in ast.walk(g.node) if isinstance(n, ast.Call) and is_name(n.func, "dict") and n.keywords]
-    rows += [n for n in ast.walk(g.node) if isinstance(n, ast.Dict)]
-    ctx.require(rows, "closure reader does not build a row dict")
-    r = rows[0]
-    if isinstance(r, ast.Call):
-        kv = {k.arg: k.value for k in r.keywords}
-    else:
-        kv = {const_str(k): v for k, v in zip(r.keys, r.values)}
-    ok = len(names) == 2 and is_name(kv.get("parent"), names[0]) and is_name(kv.get("child"), names[1])
-    ctx.ob("R2", ok, "the reader maps field 1 to parent and field 2 to child", node=r, func=g,
-           sig="closure reader row parent=%s child=%s" % (norm(kv["parent"]) if "parent" in kv else None,
-                                                         norm(kv["child"]) if "child" in kv else None))
-    lv = kv.get("level")
-    ok = isinstance(lv, ast.Constant) and lv.value == 2
-    ctx.ob("R2", ok, "composed rows are stored at level 2", node=r, func=g,
-           sig="closure reader level=%s" % (norm(lv) if lv is not None else None))
+            def field(ts, i):
+                """every term is position i of a split of a line of the file; returns the split terms"""
+                out = set()
+                for t in ts:
+                    if not (t[0] == "pos" and t[2] == i and t[1][0] == "call" and t[1][1] in ("split", "rsplit")):
+                        return None
+                    out.add(t[1])
+                return out
+            sp, sc = field(pt, 0), field(ct, 1)
+            ok = sp is not None and sc is not None and sp == sc and len(sp) == 1
+            ctx.ob("R2", ok, "the reader maps field 1 to parent and field 2 to child", node=s.call, func=g,
+                   sig="closure reader row parent=field 1, child=field 2" if ok else "closure reader row parent=%s child=%s" % (
+                       ", ".join(sorted(show(t) for t in pt)), ", ".join(sorted(show(t) for t in ct))))
+            if ok:
+                sp_ = next(iter(sp))
+                rsep = sp_[3][0][1] if sp_[3] and sp_[3][0][0] == "const" else None
+                ctx.ob("R2", rsep in seps and len(seps) == 1, "writer and reader agree on the field separator", node=s.call, func=g,
+                       sig="closure file separator %r / %r" % (sorted(seps), rsep), nontrivial=False)
+                # the line read comes from the file the writer wrote
+                opened = _find(sp_, lambda x: isinstance(x, tuple) and x[0] == "call" and x[1] in ("open", "io.open", "os.fdopen"))
+                same = False
+                if opened is not None and opened[3]:
+                    rp = opened[3][0]
+                    for h in handles:
+                        hcall = _find(h, lambda x: isinstance(x, tuple) and x[0] == "call")
+                        wp = hcall[3][0] if hcall is not None and hcall[3] else None
+                        if rp == wp or rp == ("attr", h, "name") or (rp[0] == "pos" and wp is not None and wp[0] == "pos" and rp[1] == wp[1]) or \
+                                (hcall is not None and rp == ("attr", hcall, "name")):
+                            same = True
+                ctx.ob("R2", same, "the reader reads the file the closure pairs were written to", node=s.call, func=g,
+                       sig="closure reader opens the writer's file" if same else "closure reader opens %s" % (show(opened) if opened else "nothing recognisable"), nontrivial=False)
 
 
 def r3(ctx):
